@@ -13,7 +13,10 @@ POOL = [("a.txt", b"A-content"), ("e.dat", b""), ("emp", DIR), ("sp ace.txt", b"
         ("d/s/t", DIR), ("d/s/t/h.txt", b"H-content"), ("dd", DIR), ("dd/q.txt", b"Q-content"), ("d.bak", b"prefix-named file")]
 POOL_T = [("a.txt", b"A-content"), ("x.tmp", b"tmp1"), ("d", DIR), ("d/f.txt", b"F-content"), ("d/y.tmp", b"tmp2"), ("sub", DIR),
           ("sub/s.txt", b"S"), ("d/sub", DIR), ("d/sub/t.tmp", b"tmp3"), ("keep.tmp.txt", b"not a tmp")]
-POOL_X = POOL + [("ls\u2028ep.txt", b"linesep"), ("d/é è", DIR), ("d/é è/\U0001F3AC.mov", b"astral")]
+POOL_X = POOL + [("ls\u2028ep.txt", b"linesep"), ("d/é è", DIR), ("d/é è/\U0001F3AC.mov", b"astral"),
+                 ("ascmhl_notes.txt", b"not a history file"), ("clip.mhl", b"a media file that ends in .mhl"), (".hidden", b"dot file"),
+                 ("my.ascmhl", DIR), ("my.ascmhl/inner.txt", b"inside a folder whose name contains ascmhl"),
+                 ("emp/emp2", DIR), ("0001_root_2020-01-01_000000Z.mhl", b"media file named like a manifest")]
 FSETS = [["xxh64"], ["c4", "md5"], list(ref.FORMATS_CLI)]
 
 
@@ -191,7 +194,7 @@ def main(tier, seed):
     engine.selftest(eng)
     if tier == "quick":
         plans = [dict(k=3, max_gens=2, max_edits=1, pool="p", sf2=False), dict(k=2, max_gens=2, max_edits=1, pool="p"),
-                 dict(k=3, max_gens=2, max_edits=0, pool="t", sf2=False)]
+                 dict(k=3, max_gens=2, max_edits=0, pool="t", sf2=False), dict(k=2, max_gens=2, max_edits=0, pool="x", sf2=False)]
     else:
         plans = [dict(k=3, max_gens=3, max_edits=1, pool="p", sf2=False), dict(k=3, max_gens=2, max_edits=1, pool="p"),
                  dict(k=4, max_gens=2, max_edits=0, pool="p", sf2=False),
